@@ -115,3 +115,31 @@ theorem C16_better_origin_slips :
     ∧ SS.Origin.betterOriginAnd .coroutine .coroutine = .fallback
     ∧ SS.Origin.betterOrigin .asyncGenerator .coroutine = .candidate
     ∧ SS.Origin.betterOrigin .coroutine .coroutine = .candidate := by decide
+
+/-- **C16_origin_reset**: a frame keeps the origin it was reached with exactly when it is that origin's own frame — so
+`extract_outermost(frame.origin).pyframe` (the origin's own frame) is the frame itself whenever an origin is recorded. -/
+theorem C16_origin_reset (own : Option SS.Origin.PyFrame) (cur : SS.Origin.PyFrame) :
+    SS.Origin.keepOrigin own cur = true ↔ ∃ f, own = some f ∧ f.id = cur.id := by
+  cases own with
+  | none => simp [SS.Origin.keepOrigin]
+  | some f => simp [SS.Origin.keepOrigin]
+
+/-- Comparing code objects instead is not the same rule: two activations of one function (a recursive generator driving
+another instance of itself) share the code and not the frame; the nested activation would keep an origin that does not own it. -/
+theorem C16_origin_reset_by_code_witness :
+    ∃ own cur, SS.Origin.keepOriginByCode (some own) cur = true ∧ SS.Origin.keepOrigin (some own) cur = false ∧ own.id ≠ cur.id :=
+  ⟨⟨1, 7⟩, ⟨2, 7⟩, by decide, by decide, by decide⟩
+
+/-- … while on frames of distinct functions (every non-recursive chain) the two rules agree, which is why only recursion shows it. -/
+theorem C16_origin_reset_by_code_agrees (own cur : SS.Origin.PyFrame)
+    (h : own.code = cur.code → own.id = cur.id) (hid : own.id = cur.id → own.code = cur.code) :
+    SS.Origin.keepOriginByCode (some own) cur = SS.Origin.keepOrigin (some own) cur := by
+  show (own.code == cur.code) = (own.id == cur.id)
+  by_cases hc : own.code = cur.code
+  · have h1 : (own.code == cur.code) = true := by simpa using hc
+    have h2 : (own.id == cur.id) = true := by simpa using h hc
+    rw [h1, h2]
+  · have hn : own.id ≠ cur.id := fun e => hc (hid e)
+    have h1 : (own.code == cur.code) = false := by simpa using hc
+    have h2 : (own.id == cur.id) = false := by simpa using hn
+    rw [h1, h2]
